@@ -342,6 +342,15 @@ class Emit:
             t = self.tup(w)
             return "let %s := (List.foldl (fun %s (%s, %s) => (%s)) %s (List.zipIdx %s));\n    %s" % (
                 t, t, self.pat(x[1][1][1]), self.pat(x[1][1][0]), self.imp(body, t), t, self.atom(x[2][1][1]), tailstr())
+        if x[0] == "for" and x[2][0] != "range":
+            # `for <pattern> in <list expression>`: a fold over the list
+            body = self.as_stmts(x[3])
+            w = self.assigned(body)
+            if not w:
+                return tailstr()
+            t = self.tup(w)
+            return "let %s := (List.foldl (fun %s %s => (%s)) %s %s);\n    %s" % (
+                t, t, self.pat(x[1]), self.imp(body, t), t, self.atom(x[2]), tailstr())
         if x[0] == "for":
             if x[1][0] != "pvar" or x[2][0] != "range":
                 raise Unsupported("for loop that is not `for i in a..b`")
@@ -504,6 +513,10 @@ LOGIC = [
     dict(group="Constr", name="constraints_validate", file="trackers/spatio_temporal_constraints.rs", impl=r"impl SpatioTemporalConstraints \{", fn="validate",
          sig="(constraints : List (Nat × Rat)) (epoch_delta : Nat) (dist : Rat) : Bool",
          field={"self.constraints": "constraints"}),
+    dict(group="Constr", name="add_constraints", file="trackers/spatio_temporal_constraints.rs", impl=r"impl SpatioTemporalConstraints \{", fn="add_constraints",
+         sig="(self_constraints constraints : List (Nat × Rat)) : List (Nat × Rat)", imperative=True, result="self_constraints",
+         fieldpath={"self.constraints": "self_constraints"}, method={"cmp": "compare {0} {1}"},
+         mutmethods={"sort_by": "List.mergeSort {0} (fun a b => ({1} a b) != Ordering.gt)", "dedup_by": "dedupBy {1} {0}"}),
     dict(group="Compat", name="sort_compatible", file="trackers/sort.rs", impl=r"impl TrackAttributes<SortAttributes, Universal2DBox> for SortAttributes \{", fn="compatible",
          sig="(constraints : List (Nat × Rat)) (maxIdle : Nat) (selfScene otherScene selfLast otherLast : Nat) (centerDist : Rat) : Bool",
          fieldpath={"self.scene_id": "selfScene", "other.scene_id": "otherScene", "self.last_updated_epoch": "selfLast",
@@ -586,6 +599,14 @@ deriving DecidableEq, Repr
 /-- `HashMap::get` on the scene -> epoch table -/
 def lookupEpoch (m : List (Nat × Nat)) (k : Nat) : Option Nat := (m.find? (fun p => p.1 == k)).map (·.2)
 """
+PRELUDE_DEDUP = """/-- `Vec::dedup_by(same)`: `same(a, b)` is called with `a` the later element and `b` the last retained one; `a` is dropped when it holds -/
+def dedupByAux {α : Type} (same : α → α → Bool) (prev : α) : List α → List α
+  | [] => []
+  | a :: rest => if same a prev then dedupByAux same prev rest else a :: dedupByAux same a rest
+def dedupBy {α : Type} (same : α → α → Bool) : List α → List α
+  | [] => []
+  | a :: rest => a :: dedupByAux same a rest
+"""
 # group -> (file, configs, header, namespace)
 K_GROUPS = ["Radius", "Box", "Inter", "Dist", "Kalman", "SMetric", "VMetric", "Clip", "Feat"]
 POSMETRIC = """/-- `PositionalMetricType` -/
@@ -606,7 +627,7 @@ def main():
     for g in K_GROUPS:
         jobs.append(("K" + g + ".lean", [c for c in KERNELS if c["group"] == g], HEADER_K % K_IMPORTS.get(g, "") + K_PRELUDE.get(g, ""), "SimVerif.Gen.K"))
     jobs.append(("LEpoch.lean", [c for c in LOGIC if c["group"] == "Epoch"], HEADER_L + PRELUDE_EPOCH, "SimVerif.Gen.L"))
-    jobs.append(("LConstr.lean", [c for c in LOGIC if c["group"] == "Constr"], HEADER_L, "SimVerif.Gen.L"))
+    jobs.append(("LConstr.lean", [c for c in LOGIC if c["group"] == "Constr"], HEADER_L + PRELUDE_DEDUP, "SimVerif.Gen.L"))
     jobs.append(("LAttr.lean", [c for c in LOGIC if c["group"] == "Attr"], HEADER_L, "SimVerif.Gen.L"))
     jobs.append(("LCompat.lean", [c for c in LOGIC if c["group"] == "Compat"], "import SimVerif.Gen.LConstr\n" + HEADER_L, "SimVerif.Gen.L"))
     for fname, cfgs, hdr, ns in jobs:
